@@ -5,6 +5,7 @@ import SqlizeModel.Impl.Diff
 import SqlizeModel.Impl.Emit
 import SqlizeModel.Impl.Render
 import SqlizeModel.Impl.Api
+import SqlizeModel.Impl.Hash
 import SqlizeModel.Spec.Props
 import SqlizeModel.Spec.Grammar
 import SqlizeModel.Spec.Scope
@@ -43,13 +44,15 @@ def runPairModel (g : Globals) (old new : List Stmt) : PairRun :=
   let up2 := do let (_, ss) ← r3; renderMigration g ss
   { mOld, mNew, mDiff, up, down, up2 }
 
-def pairCorr (run : PairRun) (obs : List SExp) : Verdict :=
+def pairCorr (g : Globals) (run : PairRun) (obs : List SExp) : Verdict :=
   let o := fun k => (obsStr obs k).getD "<missing>"
   let errOf := fun (m : M Migration) => (m.map (fun _ => "ok"))
   (expectOutcome "load-old" (errOf run.mOld) (o "errOld")).and <|
   (expectOutcome "load-new" (errOf run.mNew) (o "errNew")).and <|
   (expectOutcome "state-old" (run.mOld.map stateDump) (o "stOld")).and <|
   (expectOutcome "state-new" (run.mNew.map stateDump) (o "stNew")).and <|
+  (expectOutcome "hash-old" (do let x ← run.mOld; let h ← x.hashValue g; pure (toString h)) (o "hOld")).and <|
+  (expectOutcome "hash-new" (do let x ← run.mNew; let h ← x.hashValue g; pure (toString h)) (o "hNew")).and <|
   (expectOutcome "Diff" (errOf run.mDiff) (o "errDiff")).and <|
   (expectOutcome "state-diff" (run.mDiff.map stateDump) (o "stDiff")).and <|
   (expectOutcome "StringUp" run.up (o "up")).and <|
@@ -109,7 +112,7 @@ def pairHandler : Handler
     let o ← decodeStmts old
     let n ← decodeStmts new
     let run := runPairModel g o n
-    some ((pairCorr run obs).and (pairProps g o n obs))
+    some ((pairCorr g run obs).and (pairProps g o n obs))
   | _ => none
 
 end Sqlize.Driver
